@@ -165,7 +165,22 @@ def _inline_return_temps(func):
                 setattr(node, f, fix(v))
 
 
+class _NegForms(ast.NodeTransformer):
+    """``not (a is b)`` -> ``a is not b``;  ``not (a in b)`` -> ``a not in b``"""
+
+    def visit_UnaryOp(self, node):
+        self.generic_visit(node)
+        if isinstance(node.op, ast.Not) and isinstance(node.operand, ast.Compare) and len(node.operand.ops) == 1:
+            op = node.operand.ops[0]
+            new = {ast.Is: ast.IsNot, ast.In: ast.NotIn}.get(type(op))
+            if new is not None:
+                c = ast.Compare(left=node.operand.left, ops=[new()], comparators=node.operand.comparators)
+                return ast.copy_location(c, node)
+        return node
+
+
 def normalise(tree):
+    tree = _NegForms().visit(tree)
     for node in ast.walk(tree):
         if isinstance(node, (ast.FunctionDef, ast.AsyncFunctionDef)):
             _inline_return_temps(node)
